@@ -239,6 +239,39 @@ def negUnknown (k : Kind) (s : Seg) (_ : Path) : Bool :=
   | .index i, some c => decide (i < 0) && c.unknownKind.containsAnyDefined
   | _, _ => false
 
+/-- the kind `insert_recursive` continues with below a segment (for a negative index: the kind
+    `at_path` continues with). -/
+def insertNext (k : Kind) : Seg → Kind
+  | .field f =>
+    let col := k.object.getD Col.empty
+    (col.known.get f).getD col.unknownKind
+  | .index i =>
+    if i < 0 then k.getSeg (.index i)
+    else
+      let col := k.array.getD Col.empty
+      (col.known.get (Key.ofIdx i.toNat)).getD col.unknownKind
+
+/-- `pred` holds at some step of the walk `insert_recursive` makes along `p`. -/
+def anyOnInsertPath (pred : Kind → Seg → Path → Bool) : Kind → Path → Bool
+  | _, [] => false
+  | k, s :: rest => pred k s rest || anyOnInsertPath pred (insertNext k s) rest
+
+/-- a field (index) segment meets a kind that has the object (array) state *and* other states, and
+    that collection has a known entry that must be present: `insert_recursive` keeps the collection
+    alternative's required entries although the run-time value may be another alternative. -/
+def unionAltReq (k : Kind) (s : Seg) (_ : Path) : Bool :=
+  match s with
+  | .field _ =>
+    k.hasObj && !k.isObject &&
+      (match k.object with
+       | some c => c.known.any (fun _ v => !v.prim.undefined)
+       | none => false)
+  | .index _ =>
+    k.hasArr && !k.isArray &&
+      (match k.array with
+       | some c => c.known.any (fun _ v => !v.prim.undefined)
+       | none => false)
+
 /-- the finding classes of C19 (`none` = outside every class). -/
 inductive Cls where
   | minlen_counts_optional | neg_insert_exact_noshift | insert_union_alt | inf_over_exact
@@ -271,10 +304,10 @@ def atClass (K : Kind) (p : Path) : Cls :=
   else .none
 
 def insertClass (K : Kind) (p : Path) (X : Kind) : Cls :=
-  if anyOnPath optionalIdx K p then .minlen_counts_optional
-  else if anyOnPath negExactNoShift K p then .neg_insert_exact_noshift
-  else if anyOnPath unionAlt K p then .insert_union_alt
-  else if anyOnPath negUnknown K p && (K.hasNonAnyInf || X.hasNonAnyInf) then .inf_over_exact
+  if anyOnInsertPath optionalIdx K p then .minlen_counts_optional
+  else if anyOnInsertPath negExactNoShift K p then .neg_insert_exact_noshift
+  else if anyOnInsertPath unionAltReq K p then .insert_union_alt
+  else if anyOnInsertPath negUnknown K p && (K.hasNonAnyInf || X.hasNonAnyInf) then .inf_over_exact
   else .none
 
 def removeClass (K : Kind) (p : Path) (compact : Bool) : Cls :=
